@@ -163,6 +163,11 @@ PosViolEnd(r, c) ==
 PosViolState(st, asg, c) ==
   {"next position not above an assigned position" :
      i \in {i \in 1..Len(st.qs) : st.qs[i].q >= 0 /\ st.qs[i].q < c.nq /\ st.qs[i].next <= asg[st.qs[i].q]}}
+(* a queue that still exists according to the completed calls, has had positions assigned, and is *)
+(* gone: there is nothing left for its automatic positions to continue from                       *)
+PosViolGone(st, asg, qmExp, c) ==
+  {"a queue with assigned positions vanished (its next position is lost)" :
+     q \in {q \in QIds(c) : qmExp[q].a /\ asg[q] >= 0 /\ st.ex[q + 1] = 0}}
 
 (* --- C06: files reclaimed --- *)
 SeqMin(s) == LET RECURSIVE M(_)
@@ -328,7 +333,7 @@ TrEnd ==
                   \cup Tag("C15", BytesViol(R, c))
                   \cup Tag("C16", MemViol(R, c, qm2))
                   \cup Tag("C04", PosViolEnd(R, c))
-                  \cup (IF hasSt THEN Tag("C04", PosViolState(R.st, asg2, c)) ELSE {})
+                  \cup (IF hasSt THEN Tag("C04", PosViolState(R.st, asg2, c) \cup PosViolGone(R.st, asg2, qm2, c)) ELSE {})
                   \cup (IF call.op \in {"truncate", "delete", "restart"} /\ (executed \/ isRestart)
                         THEN Tag("C06", FilesViol(R, c, attr2, w0file)) ELSE {})
          obs == ObsOf(R)
